@@ -411,6 +411,11 @@ where
 
     // 1. Get mutable access to the `Arc<CacheEntry<V>>` in the map.
     if let Some(entry_arc) = guard.get_mut(key) {
+      // An expired entry that has not been collected yet is not there for any
+      // read API; it must not be computed on either.
+      if entry_arc.is_expired(self.shared.time_to_idle) {
+        return ComputeResult::NotFound;
+      }
       // 2. Try to get mutable access to the `CacheEntry` *inside* the Arc.
       //    This should succeed if the entry is only in the map.
       if let Some(entry) = Arc::get_mut(entry_arc) {
